@@ -190,14 +190,20 @@ PROPS = {
         technique='congruence obligations read off the real AST (z3 EUF) + bounded run-time contracts'),
     'C04': dict(
         title='Functors are functorial',
-        level='exploration',
-        vc=[], sym=[], rtc='C04',
-        level_text='Bounded stand-in only: functoriality as == (dom/cod, then, tensor, id, dagger, every slice, sums, bubbles; '
-                   'adjoints of any winding number, cups, caps, swaps for rigid functors) on all monoidal diagrams with <= 2 '
-                   '(thorough 3) boxes x 3 object maps with images of length 0/1/2 x composite box images x dict/callable, '
-                   'plus cat and rigid samples. The loop invariants of DESIGN 6/C04 are not discharged in this build.',
-        level_note='No obligation is proved for this property; run-time contracts on enumerated inputs.',
-        technique='bounded run-time contracts (stand-in); contracts stated in DESIGN.md not discharged'),
+        level='proof',
+        vc=['monoidal.Functor.__call__', 'monoidal.Diagram.then', 'monoidal.Diagram.tensor', 'monoidal.Id.__init__'],
+        sym=[], rtc='C04',
+        level_text='Proof (type-level clauses, all functors, all diagrams of any length): the real whiskering loop of '
+                   'monoidal.Functor.__call__ is verified with a relational loop invariant against the contracts of then / '
+                   'tensor / Id, for an arbitrary functor (object map = uninterpreted homomorphism on types incl. empty images, '
+                   'box map = arbitrary well-formed diagrams of the right type): no composition in the loop can raise, the '
+                   'scanned type is the type after k boxes, the image is well-formed, image.dom = F(dom), image.cod = F(cod). '
+                   'Functoriality as == between images (then, tensor, id, dagger, slices, sums, bubbles), the cat functor and the '
+                   'rigid clauses (adjoints of any winding number, cups, caps, swaps): bounded stand-in.',
+        level_note='Trusted: pyvc + solvers; precondition: images given by the user are well-typed and deterministic. The '
+                   'object-map branch of __call__ (tensor over the objects of a type) and rigid.Functor are not under contract.',
+        technique='VC generation from the real AST with a relational loop invariant (z3/cvc5); bounded run-time contracts '
+                  'for the equational clauses'),
     'C06': dict(
         title='Monoidal normal form is a sound, idempotent, canonical representative',
         level='proof',
@@ -326,4 +332,4 @@ FIX_COMMITS = ['da35a0f fix: Y gate', 'e208434 fix: Ry', '1d0097a fix: Controlle
 def claimed():
     return sorted(PROPS)
 
-CONTRACT_MODULES = ['core', 'rewriting', 'lemmas', 'eqhash']
+CONTRACT_MODULES = ['core', 'rewriting', 'lemmas', 'eqhash', 'functors']
